@@ -548,7 +548,18 @@ func c20Sym(r *core.Run, p *core.Program) {
 			t = strings.ReplaceAll(t, "load(page_header.class,(param:p&^#1048575))", "param:class")
 			o = append(o, c20Anon(t))
 		}
+		// the updates sit in different branches: their order in the block list follows the layout of the
+		// source (if/else against switch, early return against else), not the execution - compare as multisets
+		sort.Strings(o)
 		return strings.Join(o, " ; ")
+	}
+	normList := func(ss []string) []string {
+		var o []string
+		for _, s := range ss {
+			o = append(o, c20Anon(strings.ReplaceAll(s, "load(page_header.class,(param:p&^#1048575))", "param:class")))
+		}
+		sort.Strings(o)
+		return o
 	}
 	for _, pr := range [][2]string{{"uintptrMallocShared", "classMalloc"}} {
 		a, b := p.Func("lib/others/memory.(*Allocator)."+pr[0]), p.Func("lib/others/memory.(*Allocator)."+pr[1])
@@ -562,13 +573,22 @@ func c20Sym(r *core.Run, p *core.Program) {
 	// classFree vs the non-empty branch of uintptrFreeShared: compare the stores of the blocks up to the first return
 	a, b := p.Func("lib/others/memory.(*Allocator).uintptrFreeShared"), p.Func("lib/others/memory.(*Allocator).classFree")
 	if a != nil && b != nil {
-		sb := sig(b)
-		sa := sig(a)
-		if len(sa) >= len(sb) {
-			sa = sa[:len(sb)]
+		// every update of the lock-free push is also made (as often) by the locked original, whose further
+		// updates belong to its page-release path
+		la, lb := normList(sig(a)), normList(sig(b))
+		have := map[string]int{}
+		for _, x := range la {
+			have[x]++
 		}
-		na, nb := norm(sa), norm(sb)
-		r.Check(na == nb && nb != "", rule, "uintptrFreeShared~classFree", p.Pos(b.Pos()), "identical sequence of list and counter updates on the push path", fmt.Sprintf("classFree updates [%s] where uintptrFreeShared updates [%s]", clip(nb, 600), clip(na, 600)))
+		var missing []string
+		for _, x := range lb {
+			if have[x] == 0 {
+				missing = append(missing, x)
+			} else {
+				have[x]--
+			}
+		}
+		r.Check(len(missing) == 0 && len(lb) > 0, rule, "uintptrFreeShared~classFree", p.Pos(b.Pos()), "the list and counter updates of the push path are the same", fmt.Sprintf("classFree makes updates that uintptrFreeShared does not make: [%s]", clip(strings.Join(missing, " ; "), 600)))
 	}
 }
 
